@@ -5,10 +5,19 @@ tensor, array, list or dict (all 98 public names except `getter`, which needs nu
 `vector_delta`, `matrix_delta`, `func_diff_matrix` are called too), including the classes `ANOVA` / `ANOVA_func`
 with their methods, plus the private helpers `_maxvol` and `_info_appr`.  Each pattern builds its arguments for
 
-* a memory layout  'C' | 'F' | 'V' (non-contiguous views), applied to every array argument and TT-core,
-* a shape variant  'base' | 'rank1' (all TT-ranks 1) | 'mode1' (a mode of size 1) | 'd2' (two modes),
-* a flag variant   (the documented argument combinations of the function; quick runs the first one + every
-  variant once, thorough runs variants x layouts x shape variants).
+* a memory layout  'C' | 'F' | 'V' (non-contiguous views) | 'R' (C-ordered and READ-ONLY: a write attempt raises,
+  so that also value-neutral writes - `I[I < 0] = 0`, `G *= 1` - are seen), applied to every array argument and
+  TT-core; array arguments always have the dtype the function converts to (int indices, float values), so that
+  `np.asanyarray` hands the caller's buffer through and an in-place write would hit it,
+* a shape variant  'base' | 'rank1' (all TT-ranks 1) | 'mode1' (a mode of size 1) | 'd2' (two modes) | 'd4' (four
+  modes, ranks 2-3-2: interior cores that touch neither boundary core),
+* a flag variant   (the argument combinations of the function: every flag / argument form that opens another code
+  path - number vs list vs ndarray, 1-D vs 2-D, int seed vs Generator, log=True, stop criteria m / e / e_vld / cb /
+  f returning None / conv, rank-adaptive als with weights / without regularisation / r_add, als allow_swap=True
+  (the modes ARE swapped: n = [4, 2, 3]), update_sol, als_func fh lists / n_max with pruning, truncate orth=False
+  with use_stab, sample_square float_cf / m_fact restarts, sample_func cores_are_prepared, ...; quick runs every
+  variant with a C- (alternately read-only) and an F-ordered layout on the base shape + two other shape variants,
+  the first variant with all layouts and shapes; thorough runs variants x layouts x shape variants).
 
 Clauses (params fn, layout, sv, variant, seed so that a failure is attributable):
 
@@ -26,11 +35,15 @@ Documented exceptions only (DESIGN Appendix A): inplace orthogonalisation (own c
 dictionaries of cross / als / als_func / _info_appr, grid_prep_opt(s) and core_stab below the threshold may
 return their argument, copy(number / None), core_dot_maxvol returns the index vector it was given, the classes
 keep references to their training data.  Callbacks (`f`, `cb`, `fh`, `funcs`, `basis_func`) are written by this
-suite, never write to what they receive, and what they are handed is not inspected.  Undocumented service
-arguments are not exercised (to_orth=False, _to_item, cores_are_prepared, func=, update_sol, allow_swap,
-float_cf, use='k_means').  Patterns blocked by a known defect of the pinned tree (the call raises for every
+suite, never write to what they receive, and what they are handed is not inspected.  Of the service
+arguments, cores_are_prepared, update_sol, allow_swap and float_cf are exercised; to_orth=False (see below),
+_to_item, func= and use='k_means' (needs scikit-learn) are not.  Patterns blocked by a known defect of the pinned tree (the call raises for every
 input: func_int_general [C12], sample_square [C14], svd_incomplete [C20], als(r=.., use_stab=True)) return SKIP
 after the mutation check.
+
+Recorded, not yielded (DOUBTFUL): optima_tt_beam(Y, to_orth=False) rescales the boundary core of its argument in
+place; `to_orth` / `p` are undocumented inner-use arguments (variant 'no_orth' of the pattern, replay only).
+ANOVA.cores(only_near=True) is called for d = 2 only (for d >= 3 see C13.anova2.only_near).
 """
 import contextlib
 import io
@@ -43,16 +56,20 @@ from rtc import gen
 BUDGET = (100, 600)
 CASE_TIMEOUT = 60
 BOUNDS = ('every public function taking tensors / arrays / lists (PATTERNS: 97 of the 98 public names - all but getter - plus _maxvol, _info_appr; class methods of ANOVA / ANOVA_func via post-calls), '
-          'flag variants as documented, layouts C / F / strided views, shape variants base (d=3, ranks 3,2), rank 1, '
-          'mode size 1, d = 2; tensors with <= 32 entries, <= 60 samples')
+          'about 370 flag / argument-form variants (ndarray arguments of the exact dtype, lists, Generators, every stop criterion, allow_swap, update_sol, log), '
+          'layouts C / F / strided views / read-only, shape variants base (d=3, ranks 3,2), rank 1, '
+          'mode size 1, d = 2, d = 4; tensors with <= 256 entries, <= 60 samples')
 
-LAYOUTS = ('C', 'F', 'V')
-SHAPE_VARIANTS = ('base', 'rank1', 'mode1', 'd2')
+LAYOUTS = ('C', 'F', 'V', 'R')       # 'R': C-contiguous and read-only (an attempted write raises)
+SHAPE_VARIANTS = ('base', 'rank1', 'mode1', 'd2', 'd4')
 BLOCKED = {'func_int_general': 'C12: lstsq(rcond=) TypeError for every input',
            'sample_square': 'C14: size=1 draw stored in a scalar slot raises for every input',
            'svd_incomplete': 'C20: (cnt,1,r) array reaches lstsq for every input',
            ('als', 'stab'): 'als(r=.., use_stab=True): orthogonalize(.., use_stab=True) returns a (tensor, power) '
-                            'tuple that als treats as the tensor - AttributeError for every input'}
+                            'tuple that als treats as the tensor - AttributeError for every input',
+           ('als', 'allow_swap'): 'als(allow_swap=True), experimental: after two swaps that do not commute the '
+                                  'validation indices are permuted in the wrong order (rearrange = swap[rearrange] '
+                                  'instead of rearrange[swap]) - IndexError in accuracy_on_data for some data'}
 
 
 class NA(Exception):
@@ -88,6 +105,10 @@ def arr(x, layout):
     x = np.array(x)
     if x.ndim == 0:
         return x
+    if layout == 'R':
+        x = np.ascontiguousarray(x)
+        x.flags.writeable = False
+        return x
     if layout == 'F':
         return np.asfortranarray(x)
     if layout == 'V':
@@ -101,18 +122,33 @@ def arr(x, layout):
 def cfg(sv, pow2=False, equal=False):
     if equal:       # all modes equal (and a power of two)
         return {'base': ([4, 4, 4], [1, 3, 2, 1]), 'rank1': ([4, 4, 4], [1, 1, 1, 1]), 'd2': ([4, 4], [1, 3, 1]),
-                'mode1': ([1, 1, 1], [1, 2, 2, 1])}[sv]
+                'mode1': ([1, 1, 1], [1, 2, 2, 1]), 'd4': ([4, 4, 4, 4], [1, 2, 3, 2, 1])}[sv]
     if pow2:
         if sv == 'mode1':
             raise NA('mode size 1 is not a QTT mode')
-        return {'base': ([4, 2, 4], [1, 3, 2, 1]), 'rank1': ([4, 2, 4], [1, 1, 1, 1]), 'd2': ([4, 4], [1, 3, 1])}[sv]
+        return {'base': ([4, 2, 4], [1, 3, 2, 1]), 'rank1': ([4, 2, 4], [1, 1, 1, 1]), 'd2': ([4, 4], [1, 3, 1]),
+                'd4': ([2, 4, 2, 8], [1, 2, 3, 2, 1])}[sv]
     return {'base': ([3, 4, 2], [1, 3, 2, 1]), 'rank1': ([3, 4, 2], [1, 1, 1, 1]), 'mode1': ([3, 1, 2], [1, 2, 2, 1]),
-            'd2': ([3, 4], [1, 2, 1])}[sv]
+            'd2': ([3, 4], [1, 2, 1]), 'd4': ([2, 3, 2, 3], [1, 2, 3, 2, 1])}[sv]
+
+
+def ndim(sv):
+    return {'d2': 2, 'd4': 4}.get(sv, 3)
+
+
+def gtt(n, r, seed, kind, layout):
+    """gen.tt with the layouts of this suite ('R': C-contiguous read-only cores)"""
+    if layout == 'R':
+        Y = gen.tt(n, r, seed, kind, order='C')
+        for G in Y:
+            G.flags.writeable = False
+        return Y
+    return gen.tt(n, r, seed, kind, order=layout)
 
 
 def tt(sv, seed, layout, kind='gauss', tag=0, **kw):
     n, r = cfg(sv, **kw)
-    return gen.tt(n, r, seed + 1000 * tag, kind, order=layout)
+    return gtt(n, r, seed + 1000 * tag, kind, layout)
 
 
 def idx(n, m, seed, full=True):
@@ -143,7 +179,7 @@ def pts(sv, m, seed, layout, lo=-1.0, hi=1.0, d=None):
 
 # ------------------------------------------------------------------ act_many / act_one / act_two
 
-@pat('add_many', ('tt3', 'mixed', 'single', 'trunc', 'numbers'))
+@pat('add_many', ('tt3', 'mixed', 'single', 'trunc', 'numbers', 'num_first', 'same_thrice'))
 def _(L, sv, v, s):
     Y1, Y2, Y3 = (tt(sv, s, L, tag=k) for k in range(3))
     if v == 'mixed':
@@ -154,6 +190,10 @@ def _(L, sv, v, s):
         return Call(teneva.add_many, [Y1, Y2, Y3, Y1], e=1e-2, r=2, trunc_freq=1)
     if v == 'numbers':
         return Call(teneva.add_many, [1, 2.5])
+    if v == 'num_first':
+        return Call(teneva.add_many, [2.0, Y1, Y2], r=3)
+    if v == 'same_thrice':
+        return Call(teneva.add_many, [Y1, Y1, Y1], 1e-6, 2.0, 2)
     return Call(teneva.add_many, [Y1, Y2, Y3])
 
 
@@ -169,9 +209,10 @@ def _(L, sv, v, s):
     return Call(teneva.copy, {'tt': Y, 'array': Y[0], 'number': 2.5, 'none': None}[v])
 
 
-@pat('interface', ('default', 'ltr', 'P_list', 'P_flat', 'i', 'i_P_ltr', 'norm_n', 'norm_none'))
+@pat('interface', ('default', 'ltr', 'P_list', 'P_flat', 'i', 'i_P_ltr', 'norm_n', 'norm_none', 'P_flat_arr',
+                   'P_2d_ltr', 'i_P_arr'))
 def _(L, sv, v, s):
-    Y = tt(sv, s, L, equal=(v == 'P_flat'))
+    Y = tt(sv, s, L, equal=(v in ('P_flat', 'P_flat_arr', 'P_2d_ltr')))
     n = [G.shape[1] for G in Y]
     g = gen.rng('C09if', s)
     P = [arr(g.uniform(0.1, 1, size=k), L) for k in n]
@@ -186,6 +227,12 @@ def _(L, sv, v, s):
         return Call(teneva.interface, Y, i=arr(i, L))
     if v == 'i_P_ltr':
         return Call(teneva.interface, Y, P=P, i=i, norm=None, ltr=True)
+    if v == 'P_flat_arr':       # np.float64 entries are floats: the one-list-for-all-modes form as an array
+        return Call(teneva.interface, Y, arr(P[0], L), norm='n')
+    if v == 'P_2d_ltr':
+        return Call(teneva.interface, Y, arr(np.array([np.asarray(p) for p in P]), L), ltr=True)
+    if v == 'i_P_arr':
+        return Call(teneva.interface, Y, P, arr(i, L), 'l', True)
     if v == 'norm_n':
         return Call(teneva.interface, Y, norm='natural')
     if v == 'norm_none':
@@ -215,11 +262,16 @@ def _(L, sv, v, s):
     return Call(teneva.get_many, Y, arr(I, L) if v == 'arr' else I.tolist())
 
 
-@pat('mean', ('default', 'P'))
+@pat('mean', ('default', 'P', 'P_2d', 'P_long'))
 def _(L, sv, v, s):
     Y = tt(sv, s, L)
     g = gen.rng('C09mean', s)
     P = [arr(g.uniform(0, 1, size=G.shape[1]), L) for G in Y]
+    if v == 'P_2d':         # equal modes: the weights as one 2-D array
+        Y = tt(sv, s, L, equal=True)
+        return Call(teneva.mean, Y, arr(g.uniform(0, 1, size=(len(Y), Y[0].shape[1])), L))
+    if v == 'P_long':       # weights longer than the modes (only the first n_k entries are used)
+        return Call(teneva.mean, Y, [arr(g.uniform(0, 1, size=G.shape[1] + 2), L) for G in Y])
     return Call(teneva.mean, Y, P) if v == 'P' else Call(teneva.mean, Y)
 
 
@@ -236,11 +288,11 @@ def _(L, sv, v, s):
 @pat('qtt_to_tt', ('q2', 'q1', 'q3'))
 def _(L, sv, v, s):
     q = int(v[1])
-    d = 2 if sv == 'd2' else 3
+    d = ndim(sv)
     if sv == 'mode1':
         raise NA('QTT modes have size 2')
     r = 1 if sv == 'rank1' else 2
-    return Call(teneva.qtt_to_tt, gen.tt([2] * (d * q), r, s, 'gauss', order=L), q)
+    return Call(teneva.qtt_to_tt, gtt([2] * (d * q), r, s, 'gauss', L), q)
 
 
 @pat('tt_to_qtt', ('default', 'e_r'))
@@ -287,13 +339,20 @@ def _noop_cb(Y, info, opts):
     return None
 
 
-@pat('als', ('base', 'adaptive', 'lamb_none', 'weights', 'w_lamb', 'vld', 'cb', 'skip_cores', 'stab', 'lists'))
+@pat('als', ('base', 'adaptive', 'lamb_none', 'weights', 'w_lamb', 'vld', 'cb', 'skip_cores', 'stab', 'lists',
+             'allow_swap', 'adaptive_w', 'adaptive_lamb_none', 'adaptive_vld', 'update_sol', 'log', 'e_stop', 'cb_true',
+             'adaptive_r_add'))
 def _(L, sv, v, s):
     Yref = tt(sv, s, 'C', tag=5)
+    Y0 = tt(sv, s, L, tag=1)
+    if v == 'allow_swap' and sv in ('base', 'd4'):
+        # a first mode larger than the second one: the swapped unfolding has the smaller rank, the modes ARE swapped
+        n, r = {'base': ([4, 2, 3], [1, 3, 2, 1]), 'd4': ([4, 2, 3, 2], [1, 3, 2, 2, 1])}[sv]
+        Yref = gen.tt(n, r, s + 5000, 'gauss')
+        Y0 = gtt(n, 2, s + 1000, 'gauss', L)
     n = [G.shape[1] for G in Yref]
     I = idx(n, 20, s)
     y = vals(Yref, I)
-    Y0 = tt(sv, s, L, tag=1)
     It, yt = arr(I, L), arr(y, L)
     kw = dict(nswp=2, info={})
     if v == 'adaptive':
@@ -316,6 +375,25 @@ def _(L, sv, v, s):
         kw.update(r=3, use_stab=True)
     elif v == 'lists':
         It, yt = I.tolist(), y.tolist()
+    elif v == 'allow_swap':     # experimental flag of the docstring: permutes the columns of its own copy of I_trn
+        kw.update(r=3, allow_swap=True, I_vld=arr(I[::2], L), y_vld=arr(y[::2], L), nswp=3)
+    elif v == 'adaptive_w':
+        kw.update(r=3, w=arr(np.linspace(0.5, 2, len(y)), L), lamb=None)
+    elif v == 'adaptive_lamb_none':
+        kw.update(r=4, lamb=None, e_adap=1e-8)
+    elif v == 'adaptive_vld':
+        kw.update(r=2, I_vld=arr(I[::2], L), y_vld=arr(y[::2], L), e_vld=1e-30, w=arr(np.linspace(1, 2, len(y)), L),
+                  lamb=1e-3)
+    elif v == 'update_sol':
+        kw.update(update_sol=True, lamb=0.01)
+    elif v == 'log':
+        kw.update(log=True, I_vld=arr(I[::3], L), y_vld=arr(y[::3], L))
+    elif v == 'e_stop':
+        kw.update(e=1e10, nswp=5)
+    elif v == 'cb_true':
+        kw.update(cb=lambda Y, info, opts: True, nswp=5)
+    elif v == 'adaptive_r_add':
+        kw.update(r=3, r_add=1, e_adap=0.0)
     return Call(teneva.als, It, yt, Y0, mut_ok=('info',), **kw)
 
 
@@ -324,19 +402,20 @@ def _fh(X):
     return np.stack([np.ones_like(X), X, X * X, X ** 3])
 
 
-@pat('als_func', ('base', 'vld', 'fh', 'n_max', 'lamb_none', 'ab'))
+@pat('als_func', ('base', 'vld', 'fh', 'n_max', 'lamb_none', 'ab', 'fh_list', 'update_sol', 'log', 'lists',
+                  'n_max_thr', 'n_max_lamb_none', 'e_stop'))
 def _(L, sv, v, s):
     n, r = cfg(sv, equal=True)
     if sv == 'mode1':
         n = [2, 2, 2]
-    A0 = gen.tt(n, r, s, 'gauss', order=L)
+    A0 = gtt(n, r, s, 'gauss', L)
     X = pts(sv, 60, s, L, d=len(n))
     y = arr(np.sin(np.asarray(X).sum(axis=1)), L)
     kw = dict(nswp=2, info={})
     if v == 'vld':
         kw.update(X_vld=pts(sv, 10, s + 1, L, d=len(n)), y_vld=arr(np.linspace(-1, 1, 10), L), e_vld=1e-30)
     elif v == 'fh':
-        A0 = gen.tt([4] * len(n), r, s, 'gauss', order=L)
+        A0 = gtt([4] * len(n), r, s, 'gauss', L)
         kw.update(fh=_fh)
     elif v == 'n_max':
         kw.update(n_max=n[0] + 1)
@@ -344,6 +423,21 @@ def _(L, sv, v, s):
         kw.update(lamb=None)
     elif v == 'ab':
         kw.update(a=-2.0, b=1.5)
+    elif v == 'fh_list':
+        A0 = gtt([4] * len(n), r, s, 'gauss', L)
+        kw.update(fh=[_fh] * len(n), lamb=None)
+    elif v == 'update_sol':
+        kw.update(update_sol=True, lamb=0.01)
+    elif v == 'log':
+        kw.update(log=True, X_vld=pts(sv, 10, s + 1, L, d=len(n)), y_vld=arr(np.linspace(-1, 1, 10), L))
+    elif v == 'lists':
+        X, y = np.asarray(X).tolist(), np.asarray(y).tolist()
+    elif v == 'n_max_thr':      # a huge thr_pow: the highest coefficient is dropped again and again (recursion on views)
+        kw.update(n_max=n[0] + 2, thr_pow=1e6)
+    elif v == 'n_max_lamb_none':
+        kw.update(n_max=n[0] + 1, lamb=None, thr_pow=1e6)
+    elif v == 'e_stop':
+        kw.update(e=1e10, nswp=5)
     return Call(teneva.als_func, X, y, A0, mut_ok=('info',), **kw)
 
 
@@ -354,11 +448,15 @@ def _data(sv, s, L, m=25):
     return arr(I, L), arr(vals(Yref, I), L), I
 
 
-@pat('anova', ('o1', 'o2', 'o2_r3', 'noise0', 'lists'))
+@pat('anova', ('o1', 'o2', 'o2_r3', 'noise0', 'lists', 'generator', 'o2_r5'))
 def _(L, sv, v, s):
     I, y, I0 = _data(sv, s, L)
     if v == 'lists':
         return Call(teneva.anova, I0.tolist(), np.asarray(y).tolist(), seed=s)
+    if v == 'generator':
+        return Call(teneva.anova, I, y, 3, 2, 1e-8, np.random.default_rng(s))
+    if v == 'o2_r5':
+        return Call(teneva.anova, I, y, 5, 2, 0.0, s)
     kw = {'o1': dict(r=2, order=1), 'o2': dict(r=2, order=2), 'o2_r3': dict(r=3, order=2, noise=1e-6),
           'noise0': dict(r=3, order=1, noise=0.0)}[v]
     return Call(teneva.anova, I, y, seed=s, **kw)
@@ -368,7 +466,9 @@ def _anova_methods(A, I0):
     out = [A(I0[:4]), A(I0[0]), A[I0[1]], A.cores(2), A.cores(3, rel_noise=1e-3), A.cores_1(2), A.max(), A.max(min),
            A.sample(), A.f1_arr, A.calc(I0[0]), A.domain, A.shapes]
     if A.order == 2:
-        out += [A.cores_2(2), A.f2_arr, A.sample(with_square=True)]
+        out += [A.cores_2(2), A.f2_arr, A.sample(with_square=True), A.calc_2(I0[0][:2])]
+        if A.d == 2:        # only_near with d >= 3 pairs the wrong matrices (see C13.anova2.only_near) and raises here
+            out += [A.cores(3, only_near=True), A.cores_2(3, only_near=True)]
     return out
 
 
@@ -378,9 +478,9 @@ def _(L, sv, v, s):
     return Call(teneva.ANOVA, I, y, order=int(v[1]), seed=s, post=lambda A: _anova_methods(A, I0))
 
 
-@pat('anova_func', ('base', 'ab_list', 'e_none'))
+@pat('anova_func', ('base', 'ab_list', 'e_none', 'lists', 'lamb'))
 def _(L, sv, v, s):
-    d = 2 if sv == 'd2' else 3
+    d = ndim(sv)
     X = pts(sv, 40, s, L, d=d)
     y = arr(np.cos(np.asarray(X).sum(axis=1)), L)
     n = 1 if sv == 'mode1' else 3
@@ -388,12 +488,16 @@ def _(L, sv, v, s):
         return Call(teneva.anova_func, X, y, n, arr([-1.5] * d, L), arr([2.0] * d, L))
     if v == 'e_none':
         return Call(teneva.anova_func, X, y, n, e=None)
+    if v == 'lists':
+        return Call(teneva.anova_func, np.asarray(X).tolist(), np.asarray(y).tolist(), n, [-1.5] * d, [2.0] * d)
+    if v == 'lamb':
+        return Call(teneva.anova_func, X, y, n, -1.0, 1.0, 0.5, 1e-2)
     return Call(teneva.anova_func, X, y, n)
 
 
 @pat('ANOVA_func', ('base',))
 def _(L, sv, v, s):
-    d = 2 if sv == 'd2' else 3
+    d = ndim(sv)
     X = pts(sv, 40, s, L, d=d)
     y = arr(np.cos(np.asarray(X).sum(axis=1)), L)
     return Call(teneva.ANOVA_func, X, y, 1 if sv == 'mode1' else 3, -1.0, 1.0, 1e-6,
@@ -403,7 +507,8 @@ def _(L, sv, v, s):
 # ------------------------------------------------------------------ core
 
 def _core(sv, s, L, pow2=False):
-    shp = {'base': (3, 4, 2), 'rank1': (1, 4, 1), 'mode1': (2, 1, 3), 'd2': (1, 4, 3)}[sv]
+    shp = {'base': (3, 4, 2), 'rank1': (1, 4, 1), 'mode1': (2, 1, 3), 'd2': (1, 4, 3),
+           'd4': (2, 8, 3)}[sv]
     if pow2 and sv == 'mode1':
         raise NA('mode size 1')
     return arr(gen.rng('C09core', sv, s).normal(size=shp), L)
@@ -443,8 +548,12 @@ def _(L, sv, v, s):
     return Call(teneva.core_dot_maxvol, G, R, None, ltr)
 
 
-@pat('core_qr_rand', ('ltr', 'rtl'))
+@pat('core_qr_rand', ('ltr', 'rtl', 'generator', 'm0'))
 def _(L, sv, v, s):
+    if v == 'generator':
+        return Call(teneva.core_qr_rand, _core(sv, s, L), 1, False, np.random.default_rng(s))
+    if v == 'm0':
+        return Call(teneva.core_qr_rand, _core(sv, s, L), 0, True, s)
     return Call(teneva.core_qr_rand, _core(sv, s, L), 2, ltr=(v == 'ltr'), seed=s)
 
 
@@ -454,7 +563,7 @@ def _(L, sv, v, s):
         raise NA('QTT cores have mode size 2')
     q = int(v[1])
     r = 1 if sv == 'rank1' else 2
-    Y = gen.tt([2] * (q + 1), r, s, 'gauss', order=L)
+    Y = gtt([2] * (q + 1), r, s, 'gauss', L)
     return Call(teneva.core_qtt_to_tt, Y[:q] if sv != 'd2' else Y[1:q + 1])
 
 
@@ -478,7 +587,8 @@ def _(L, sv, v, s):
 
 # ------------------------------------------------------------------ cross / cross_act / data
 
-@pat('cross', ('nswp', 'm', 'e', 'rank_const', 'cache', 'vld', 'cb', 'nswp0'))
+@pat('cross', ('nswp', 'm', 'e', 'rank_const', 'cache', 'vld', 'cb', 'nswp0', 'log', 'm_small', 'f_none', 'vld_only',
+               'cache_m', 'dr2', 'cb_true', 'conv'))
 def _(L, sv, v, s):
     Yref = tt(sv, s, 'C', tag=3)
     n = [G.shape[1] for G in Yref]
@@ -504,10 +614,32 @@ def _(L, sv, v, s):
         kw.update(nswp=2, cb=_noop_cb, cache={})
     elif v == 'nswp0':
         kw.update(nswp=0)
+    elif v == 'log':
+        kw.update(nswp=2, log=True, cache={})
+    elif v == 'm_small':        # the budget is exhausted at the first request: the pre-iterated tensor is returned
+        kw.update(m=1)
+    elif v == 'f_none':         # the target function interrupts the algorithm in the second request
+        cnt = []
+
+        def f2(I):
+            cnt.append(1)
+            return None if len(cnt) > 1 else f(I)
+        return Call(teneva.cross, f2, Y0, nswp=3, mut_ok=('info',), info={})
+    elif v == 'vld_only':
+        I = idx(n, 6, s)
+        kw.update(I_vld=arr(I, L), y_vld=arr(f(I), L), e_vld=1e30)
+    elif v == 'cache_m':
+        kw.update(m=40, cache={}, tau=1.01, tau0=1.01, k0=5)
+    elif v == 'dr2':
+        kw.update(nswp=2, dr_min=1, dr_max=2)
+    elif v == 'cb_true':
+        kw.update(nswp=4, cb=lambda Y, info, opts: True)
+    elif v == 'conv':
+        kw.update(nswp=6, cache={}, m_cache_scale=0)
     return Call(teneva.cross, f, Y0, mut_ok=('info', 'cache'), **kw)
 
 
-@pat('cross_act', ('base', 'dr0', 'dr2', 'three'))
+@pat('cross_act', ('base', 'dr0', 'dr2', 'three', 'log', 'generator', 'r1', 'nswp0'))
 def _(L, sv, v, s):
     svx = 'base' if sv == 'rank1' else sv       # documented draft limitation: rank-1 *input* tensors fail
     X1, X2, X3 = tt(svx, s, L), tt(svx, s, L, tag=1), tt(svx, s, L, tag=2)
@@ -515,9 +647,11 @@ def _(L, sv, v, s):
 
     def f(X):
         return X[:, 0] + 2 * X[:, 1]
-    kw = {'base': dict(dr=2), 'dr0': dict(dr=0), 'dr2': dict(dr=2, dr2=1), 'three': dict(dr=1)}[v]
+    kw = {'base': dict(dr=2), 'dr0': dict(dr=0), 'dr2': dict(dr=2, dr2=1), 'three': dict(dr=1),
+          'log': dict(dr=1, log=True), 'generator': dict(dr=1), 'r1': dict(r=1, dr=1), 'nswp0': dict(dr=1)}[v]
     Xs = [X1, X2, X3] if v == 'three' else [X1, X2]
-    return Call(teneva.cross_act, f, Xs, Y0, 1e-6, 1, seed=s, **kw)
+    seed = np.random.default_rng(s) if v == 'generator' else s
+    return Call(teneva.cross_act, f, Xs, Y0, 1e-6, 0 if v == 'nswp0' else 1, seed=seed, **kw)
 
 
 @pat('accuracy_on_data', ('base', 'trunc', 'none', 'lists'))
@@ -569,7 +703,8 @@ def _cheb_funcs(n):
     return [(lambda k: (lambda x: teneva.func_basis(np.asarray(x), k)))(k) for k in n]
 
 
-@pat('func_get', ('ab_scalar', 'ab_list', 'ab_none', 'single', 'funcs', 'skip_out_false', 'z', 'list_points'))
+@pat('func_get', ('ab_scalar', 'ab_list', 'ab_none', 'single', 'funcs', 'skip_out_false', 'z', 'list_points',
+                  'funcs_single', 'a_only', 'single_outside'))
 def _(L, sv, v, s):
     A = tt(sv, s, L)
     n = [G.shape[1] for G in A]
@@ -589,10 +724,17 @@ def _(L, sv, v, s):
         return Call(teneva.func_get, X, A, -1.0, 1.0, z=-7.0, skip_out=True)
     if v == 'list_points':
         return Call(teneva.func_get, np.asarray(X).tolist(), A, -1.0, 1.0)
+    if v == 'funcs_single':     # one callable for all modes (equal mode sizes)
+        A = tt(sv, s, L, equal=True)
+        return Call(teneva.func_get, X, A, funcs=_cheb_funcs([A[0].shape[1]])[0])
+    if v == 'a_only':
+        return Call(teneva.func_get, X, A, arr([-1.1] * d, L), None, 3.0)
+    if v == 'single_outside':
+        return Call(teneva.func_get, arr(np.full(d, 5.0), L), A, -1.0, 1.0, -2.0)
     return Call(teneva.func_get, X, A, -1.0, 1.0)
 
 
-@pat('func_gets', ('default', 'm_int', 'm_list', 'sin', 'm_array'))
+@pat('func_gets', ('default', 'm_int', 'm_list', 'sin', 'm_array', 'sin_m', 'm_float'))
 def _(L, sv, v, s):
     A = tt(sv, s, L)
     d = len(A)
@@ -604,6 +746,10 @@ def _(L, sv, v, s):
         return Call(teneva.func_gets, A, arr([3 + k for k in range(d)], L))
     if v == 'sin':
         return Call(teneva.func_gets, A, None, 'sin')
+    if v == 'sin_m':
+        return Call(teneva.func_gets, A, arr([2 + k for k in range(d)], L), 'sin')
+    if v == 'm_float':
+        return Call(teneva.func_gets, A, 4.0)
     return Call(teneva.func_gets, A)
 
 
@@ -614,7 +760,7 @@ def _(L, sv, v, s):
     return Call(teneva.func_int, tt(sv, s, L), v)
 
 
-@pat('func_int_general', ('shared_X', 'per_core_X'))
+@pat('func_int_general', ('shared_X', 'per_core_X', 'X_list', 'X_lists', 'rcond'))
 def _(L, sv, v, s):
     Y = tt(sv, s, L, equal=True)
     n = Y[0].shape[1]
@@ -624,6 +770,12 @@ def _(L, sv, v, s):
         return teneva.func_basis(np.asarray(x), n)
     if v == 'per_core_X':
         return Call(teneva.func_int_general, Y, arr(np.tile(X, (len(Y), 1)), L), basis)
+    if v == 'X_list':
+        return Call(teneva.func_int_general, Y, X.tolist(), basis)
+    if v == 'X_lists':
+        return Call(teneva.func_int_general, Y, [X.tolist() for _ in Y], basis)
+    if v == 'rcond':
+        return Call(teneva.func_int_general, Y, arr(X, L), basis, 0.5)
     return Call(teneva.func_int_general, Y, arr(X, L), basis)
 
 
@@ -649,11 +801,14 @@ def _(L, sv, v, s):
     return Call(teneva.func_get_full, X, A, -1.0, 1.0, 0.5, v != 'skip_out_false')
 
 
-@pat('func_gets_full', ('default', 'm'))
+@pat('func_gets_full', ('default', 'm', 'm_array'))
 def _(L, sv, v, s):
     if sv == 'mode1':
         raise NA('Chebyshev grid needs >= 2 nodes')
     A = _full(sv, s, L)
+    if v == 'm_array':
+        return Call(teneva.func_gets_full, A, arr([-1.0] * A.ndim, L), arr([1.0] * A.ndim, L),
+                    arr([2 + k for k in range(A.ndim)], L))
     return Call(teneva.func_gets_full, A, -1.0, 1.0, 3) if v == 'm' else Call(teneva.func_gets_full, A, -1.0, 1.0)
 
 
@@ -714,14 +869,14 @@ def _(L, sv, v, s):
 
 @pat('ind_qtt_to_tt', ('batch', 'single', 'list'))
 def _(L, sv, v, s):
-    d = 2 if sv == 'd2' else 3
+    d = ndim(sv)
     I = gen.rng('C09iq', s).integers(0, 2, size=(6, 2 * d))
     return Call(teneva.ind_qtt_to_tt, {'batch': arr(I, L), 'single': arr(I[0], L), 'list': I.tolist()}[v], 2)
 
 
 @pat('ind_tt_to_qtt', ('batch', 'single', 'list'))
 def _(L, sv, v, s):
-    d = 2 if sv == 'd2' else 3
+    d = ndim(sv)
     I = gen.rng('C09tq', s).integers(0, 4, size=(6, d))
     return Call(teneva.ind_tt_to_qtt, {'batch': arr(I, L), 'single': arr(I[0], L), 'list': I.tolist()}[v], 4)
 
@@ -796,7 +951,7 @@ def _(L, sv, v, s):
 # ------------------------------------------------------------------ maxvol / optima / props
 
 def _tall(sv, s, L):
-    shp = {'base': (8, 3), 'rank1': (5, 1), 'mode1': (2, 1), 'd2': (6, 2)}[sv]
+    shp = {'base': (8, 3), 'rank1': (5, 1), 'mode1': (2, 1), 'd2': (6, 2), 'd4': (9, 4)}[sv]
     return arr(gen.rng('C09tall', sv, s).normal(size=shp), L)
 
 
@@ -833,11 +988,13 @@ def _(L, sv, v, s):
                 mut_ok=(0,))
 
 
-@pat('optima_qtt', ('default', 'k2'))
+@pat('optima_qtt', ('default', 'k2', 'e_r'))
 def _(L, sv, v, s):
     if sv == 'mode1':
         raise NA('mode size 1 has no QTT form')
     Y = tt(sv, s, L, equal=True)
+    if v == 'e_r':
+        return Call(teneva.optima_qtt, Y, 3, 1e-3, 2)
     return Call(teneva.optima_qtt, Y, 2) if v == 'k2' else Call(teneva.optima_qtt, Y)
 
 
@@ -847,11 +1004,15 @@ def _(L, sv, v, s):
     return Call(teneva.optima_tt, Y, 1) if v == 'k1' else Call(teneva.optima_tt, Y)
 
 
+# DOUBTFUL (disabled, not part of the variants): optima_tt_beam(Y, to_orth=False) works on views of the boundary core
+# of its ARGUMENT and rescales it in place (`Q = G.reshape(n, r2); Q *= 2**p0`): the argument is modified for every
+# input.  `to_orth` / `p` are not in the docstring (inner use by callers that own the tensor), so the call is not
+# a documented argument combination in the sense of the quantifier; variant 'no_orth' below is kept for replay only.
 @pat('optima_tt_beam', ('l2r', 'r2l', 'ret_all', 'k1_r2l_all'))
 def _(L, sv, v, s):
     Y = tt(sv, s, L)
     kw = {'l2r': {}, 'r2l': dict(l2r=False), 'ret_all': dict(k=3, ret_all=True),
-          'k1_r2l_all': dict(k=1, l2r=False, ret_all=True)}[v]
+          'k1_r2l_all': dict(k=1, l2r=False, ret_all=True), 'no_orth': dict(to_orth=False)}[v]
     return Call(teneva.optima_tt_beam, Y, **kw)
 
 
@@ -871,7 +1032,7 @@ def _(L, sv, v, s):
     n, r = cfg(sv)
     if sv == 'mode1':
         raise NA('functional beam search needs >= 2 coefficients per mode')
-    A = gen.tt([4, 3, 4][:len(n)], r, s, 'gauss', order=L)
+    A = gtt([4, 3, 4, 3][:len(n)], r, s, 'gauss', L)
     kw = {'default': dict(k=3), 'ret_all': dict(k=3, ret_all=True), 'k_loc': dict(k=3, k_loc=2)}[v]
     return Call(teneva.optima_func_tt_beam, A, **kw)
 
@@ -882,7 +1043,7 @@ for _f in ('erank', 'ranks', 'shape', 'size', 'full', 'show'):
 
 # ------------------------------------------------------------------ sample / sample_func
 
-@pat('sample', ('m1', 'm5', 'unsert', 'generator'))
+@pat('sample', ('m1', 'm5', 'unsert', 'generator', 'm_float'))
 def _(L, sv, v, s):
     Y = [np.abs(G) + 0.1 for G in tt(sv, s, 'C')]
     Y = [arr(G, L) for G in Y]
@@ -892,36 +1053,53 @@ def _(L, sv, v, s):
         return Call(teneva.sample, Y, 3, s, 0.0)
     if v == 'generator':
         return Call(teneva.sample, Y, 3, seed=np.random.default_rng(s))
+    if v == 'm_float':
+        return Call(teneva.sample, Y, 4.0, s, 1e-3)
     return Call(teneva.sample, Y, seed=s)
 
 
-@pat('sample_square', ('unique', 'nonunique'))
+@pat('sample_square', ('unique', 'nonunique', 'generator', 'm_fact', 'float_cf', 'restart'))
 def _(L, sv, v, s):
-    return Call(teneva.sample_square, tt(sv, s, L), 2, unique=(v == 'unique'), seed=s)
+    Y = tt(sv, s, L)
+    if v == 'generator':
+        return Call(teneva.sample_square, Y, 3.0, False, np.random.default_rng(s))
+    if v == 'm_fact':
+        return Call(teneva.sample_square, Y, 2, True, s, 1, 3)
+    if v == 'float_cf':
+        return Call(teneva.sample_square, Y, 2, unique=False, seed=s, float_cf=2)
+    if v == 'restart':      # more unique samples than m_fact * m draws can give at once: the function calls itself again
+        size = int(np.prod([G.shape[1] for G in Y]))
+        if size < 2:
+            raise NA('single-entry tensor')
+        return Call(teneva.sample_square, Y, min(3, size), True, s, 1, 100)
+    return Call(teneva.sample_square, Y, 2, unique=(v == 'unique'), seed=s)
 
 
 def _n_arg(fname):
     def build(L, sv, v, s):
         n, _r = cfg(sv)
-        nn = arr(n, L) if v == 'array' else list(n)
+        nn = list(n) if v == 'list' else arr(n, L)
+        seed = np.random.default_rng(s) if v == 'generator' else s
         if fname == 'sample_tt':
-            return Call(teneva.sample_tt, nn, 2, seed=s)
-        return Call(getattr(teneva, fname), nn, 5, seed=s)
+            return Call(teneva.sample_tt, nn, 3 if v == 'generator' else 2, seed=seed)
+        return Call(getattr(teneva, fname), nn, 7.0 if v == 'generator' else 5, seed=seed)
     return build
 
 
 for _f in ('sample_lhs', 'sample_rand', 'sample_tt'):
-    pat(_f, ('list', 'array'))(_n_arg(_f))
+    pat(_f, ('list', 'array', 'generator'))(_n_arg(_f))
 
 
-@pat('sample_rand_poi', ('list', 'array'))
+@pat('sample_rand_poi', ('list', 'array', 'generator'))
 def _(L, sv, v, s):
     n, _r = cfg(sv)
     a, b = [-1.0 - k for k in range(len(n))], [1.0 + k for k in range(len(n))]
+    if v == 'generator':
+        return Call(teneva.sample_rand_poi, arr(a, L), arr(b, L), 3.0, np.random.default_rng(s))
     return Call(teneva.sample_rand_poi, arr(a, L) if v == 'array' else a, arr(b, L) if v == 'array' else b, 4, seed=s)
 
 
-@pat('sample_func', ('base',))
+@pat('sample_func', ('base', 'generator', 'prepared'))
 def _(L, sv, v, s):
     if sv == 'mode1':
         raise NA('needs >= 2 coefficients per mode')
@@ -929,25 +1107,31 @@ def _(L, sv, v, s):
     n, r = cfg(sv)
     # coefficients of a positive density: 1 + small perturbation
     A = teneva.func_int([np.ones((1, 5, 1)) for _ in n])
+    if v == 'prepared':     # inner-use flag: the cores are taken as they are (already scaled and orthogonalised)
+        A = [G + 0.05 * g.normal(size=G.shape) for G in A]
+        for G in A:
+            G[:, 0, :] *= np.sqrt(2.)
+        A = [arr(G, L) for G in teneva.orthogonalize(A, 0)]
+        return Call(teneva.sample_func, A, s, True)
     A = [arr(G + 0.05 * g.normal(size=G.shape), L) for G in A]
-    return Call(teneva.sample_func, A, seed=s)
+    return Call(teneva.sample_func, A, seed=np.random.default_rng(s) if v == 'generator' else s)
 
 
 # ------------------------------------------------------------------ svd / tensors / transformation
 
 def _mat(sv, s, L, shape=None):
-    shp = shape or {'base': (5, 8), 'rank1': (4, 1), 'mode1': (1, 6), 'd2': (6, 6)}[sv]
+    shp = shape or {'base': (5, 8), 'rank1': (4, 1), 'mode1': (1, 6), 'd2': (6, 6), 'd4': (7, 4)}[sv]
     return arr(gen.rng('C09mat', sv, s).normal(size=shp), L)
 
 
-@pat('matrix_skeleton', ('default', 'e_r', 'hermitian', 'rel', 'give_l', 'give_r'))
+@pat('matrix_skeleton', ('default', 'e_r', 'hermitian', 'rel', 'give_l', 'give_r', 'all_opts'))
 def _(L, sv, v, s):
     A = _mat(sv, s, L)
     if v == 'hermitian':
         B = _mat(sv, s, 'C', (5, 5))
         return Call(teneva.matrix_skeleton, arr(B + B.T, L), hermitian=True)
     kw = {'default': {}, 'e_r': dict(e=0.5, r=2), 'rel': dict(e=0.1, rel=True), 'give_l': dict(give_to='l'),
-          'give_r': dict(give_to='r')}[v]
+          'give_r': dict(give_to='r'), 'all_opts': dict(e=0.3, r=3.0, rel=True, give_to='r')}[v]
     return Call(teneva.matrix_skeleton, A, **kw)
 
 
@@ -972,20 +1156,22 @@ def _(L, sv, v, s):
     return Call(teneva.svd_matrix, A)
 
 
-@pat('svd_incomplete', ('base',))
+@pat('svd_incomplete', ('base', 'r_cap'))
 def _(L, sv, v, s):
     Yref = tt(sv, s, 'C')
     n = [G.shape[1] for G in Yref]
     I, i1, i2 = teneva.sample_tt(n, 2, seed=s)
     y = vals(Yref, I)
+    if v == 'r_cap':
+        return Call(teneva.svd_incomplete, arr(I, L), arr(y, L), arr(i1, L), arr(i2, L), 1e-2, 1)
     return Call(teneva.svd_incomplete, arr(I, L), arr(y, L), arr(i1, L), arr(i2, L), 1e-10, 3)
 
 
 @pat('full_matrix', ('F', 'C'))
 def _(L, sv, v, s):
-    q = 2 if sv == 'd2' else 3
+    q = ndim(sv)
     r = 1 if sv == 'rank1' else 2
-    return Call(teneva.full_matrix, gen.tt([4] * q, r, s, 'gauss', order=L), v)
+    return Call(teneva.full_matrix, gtt([4] * q, r, s, 'gauss', L), v)
 
 
 @pat('const', ('plain_list', 'plain_array', 'zeros_lists', 'zeros_arrays'))
@@ -1027,16 +1213,19 @@ def _rand(fname):
     def build(L, sv, v, s):
         n, r = cfg(sv)
         nn = arr(n, L) if v != 'scalar_r' else list(n)
-        rr = {'scalar_r': 2, 'list_r': list(r), 'array_r': arr(r, L)}[v]
+        rr = {'scalar_r': 2, 'list_r': list(r), 'array_r': arr(r, L), 'generator': arr(r, L)}[v]
         if fname == 'rand_custom':
             g = gen.rng('C09rc', s)
             return Call(teneva.rand_custom, nn, rr, lambda size: g.normal(size=size))
+        if v == 'generator':
+            extra = {'rand': (-2.0, 3.0), 'rand_norm': (1.0, 0.5), 'rand_stab': (1e-3,)}[fname]
+            return Call(getattr(teneva, fname), nn, rr, *extra, np.random.default_rng(s))
         return Call(getattr(teneva, fname), nn, rr, seed=s)
     return build
 
 
 for _f in ('rand', 'rand_norm', 'rand_stab', 'rand_custom'):
-    pat(_f, ('scalar_r', 'list_r', 'array_r'))(_rand(_f))
+    pat(_f, ('scalar_r', 'list_r', 'array_r') + (() if _f == 'rand_custom' else ('generator',)))(_rand(_f))
 
 
 @pat('orthogonalize', ('default', 'k0', 'k1', 'stab', 'stab_k0'))
@@ -1061,12 +1250,15 @@ def _(L, sv, v, s):
         Call(teneva.orthogonalize_right, Y, 1, inplace=False)
 
 
-@pat('truncate', ('default', 'e_r', 'no_orth', 'stab', 'svd', 'svd_no_orth', 'stab_svd', 'cap1'))
+@pat('truncate', ('default', 'e_r', 'no_orth', 'stab', 'svd', 'svd_no_orth', 'stab_svd', 'cap1', 'stab_no_orth',
+                  'stab_svd_no_orth', 'e_huge'))
 def _(L, sv, v, s):
     Y = tt(sv, s, L)
     kw = {'default': {}, 'e_r': dict(e=0.3, r=2), 'no_orth': dict(e=1e-2, orth=False), 'stab': dict(use_stab=True),
           'svd': dict(e=1e-2, is_eigh=False), 'svd_no_orth': dict(e=1e-2, orth=False, is_eigh=False),
-          'stab_svd': dict(e=1e-2, use_stab=True, is_eigh=False), 'cap1': dict(e=0.0, r=1)}[v]
+          'stab_svd': dict(e=1e-2, use_stab=True, is_eigh=False), 'cap1': dict(e=0.0, r=1),
+          'stab_no_orth': dict(e=1e-3, orth=False, use_stab=True),
+          'stab_svd_no_orth': dict(e=1e-3, r=2.0, orth=False, use_stab=True, is_eigh=False), 'e_huge': dict(e=1e10)}[v]
     return Call(teneva.truncate, Y, **kw)
 
 
@@ -1149,6 +1341,8 @@ def no_mutation(fn, layout, sv, variant, seed):
     if before != after:
         return FAIL(_describe(before, after) + (f' (call raised {type(exc).__name__})' if exc else ''))
     if exc is not None:
+        if layout == 'R' and isinstance(exc, ValueError) and 'read-only' in str(exc):
+            return FAIL(f'the call tried to write into a (read-only) argument: {str(exc)[:200]}')
         why = BLOCKED.get(fn) or BLOCKED.get((fn, variant))
         if why:
             return SKIP(f'blocked by known defect {why}: {type(exc).__name__}')
@@ -1168,6 +1362,8 @@ def no_alias(fn, layout, sv, variant, seed):
         return SKIP(str(e))
     res, extra, exc = _run(call)
     if exc is not None:
+        if layout == 'R' and isinstance(exc, ValueError) and 'read-only' in str(exc):
+            return SKIP('write attempt into a read-only argument: reported by C09.no_mutation')
         why = BLOCKED.get(fn) or BLOCKED.get((fn, variant))
         if why:
             return SKIP(f'blocked by known defect {why}: {type(exc).__name__}')
@@ -1293,21 +1489,26 @@ def cases(tier, seed):
         if big:
             combos = [(L, sv, v) for v in variants for L in LAYOUTS for sv in SHAPE_VARIANTS]
         else:
-            v0 = variants[0]
-            combos += [(L, 'base', v0) for L in LAYOUTS]
-            combos += [('F', 'rank1', v0), ('V', 'mode1', v0), ('C', 'd2', v0), ('V', 'rank1', v0), ('F', 'mode1', v0)]
-            for k, v in enumerate(variants[1:]):
-                combos += [(LAYOUTS[k % 3], 'base', v), (LAYOUTS[(k + 1) % 3], SHAPE_VARIANTS[1 + k % 3], v)]
+            # every flag variant: all four layouts on the base shape (an ndarray argument of the dtype the function
+            # converts to is used as it is, so every layout reaches the code that might write) and every other shape
+            # variant once, the layouts rotating
+            for k, v in enumerate(variants):
+                if k == 0:
+                    combos += [(L, 'base', v) for L in LAYOUTS]
+                    combos += [(LAYOUTS[j % 4], sv, v) for j, sv in enumerate(SHAPE_VARIANTS[1:])]
+                else:       # C-ordered (alternately read-only) and F-ordered: the layouts for which reshapes are views
+                    combos += [('R' if k % 2 else 'C', 'base', v), ('F', 'base', v)]
+                    combos += [(LAYOUTS[(k + j) % 4], SHAPE_VARIANTS[1 + (k + j) % 4], v) for j in (0, 1)]
         for L, sv, v in combos:
             for rep in range(2 if big else 1):
                 s = rs()
                 for cid in ('C09.no_mutation', 'C09.no_alias'):
                     yield cid, dict(fn=fn, layout=L, sv=sv, variant=v, seed=s)
     for side in ('left', 'right'):
-        for L in LAYOUTS:
+        for L in LAYOUTS[:3]:
             for sv in SHAPE_VARIANTS:
-                for i in range(0, 3):
+                for i in range(0, 4):
                     yield 'C09.inplace.contract', dict(side=side, layout=L, sv=sv, i=i, seed=rs())
     for what in ('grid_prep_opt', 'grid_prep_opts', 'core_stab', 'copy', 'core_dot_maxvol'):
-        for L in LAYOUTS:
+        for L in LAYOUTS[:3]:
             yield 'C09.passthrough.contract', dict(what=what, layout=L, seed=rs())
